@@ -15,7 +15,7 @@
 //   A4p           as A4, the last header with a nonce that fails proof of work
 //   A4g           as A4 with a gap inside the batch (non-continuous)
 // Oracles after every message:
-//   S2 (property)  a header of the peer is in the block index  =>  the peer has delivered every header of that chain
+//   S2 (property)  a header of the peer is in the block index  =>  the peer has delivered every header of one of its chains
 //                  from the base up to the minimum-work height at least once (no storage before the work is shown)
 //   S4 (property)  a batch with a bad-PoW header or a gap stores nothing, leaves the per-peer sync state untouched
 //                  (no header of it reached the headers-sync state) and gets the peer disconnected
@@ -274,7 +274,11 @@ struct World {
             bool onA = idxA.count(h), onB = idxB.count(h);
             bool provenA = true, provenB = true;
             for (int i = 0; i < NEED; i++) { if (!(delivered >> i & 1)) provenA = false; if (!(delivered >> (32 + i) & 1)) provenB = false; }
-            if (!((onA && provenA) || (onB && provenB))) {
+            // "until the peer has served a chain reaching the minimum chain work": some chain, not necessarily the header's own —
+            // in the second pass a different chain whose 1-bit commitments happen to match is released by design (probabilistic
+            // protection; which headers the sync object may release is part (a)'s subject and oracle G's reference here)
+            (void)onA; (void)onB;
+            if (!(provenA || provenB)) {
                 fs.report("C33-net-stored-before-work-proven", where + ": header " + h.ToString().substr(0, 12) + " entered the block index although the peer never served its chain up to the minimum-work height");
                 break;
             }
